@@ -513,6 +513,40 @@ def parse_engine_io(repo, xm):
     else:
         _err(path, ln, "the per-entry check of MJMODEL_REFERENCES changed: %s" % xb[:200])
     r["refs"] = refs
+    # ---- optional second list: references that must not be negative
+    reqs = []
+    mm = re.search(r"#define MJMODEL_REFERENCES_REQUIRED((?:[^\n]*\\\n)*[^\n]*)\n", body)
+    if mm:
+        tbl = mm.group(1).replace("\\\n", " ").strip()
+        pos = 0
+        while pos < len(tbl):
+            if tbl[pos].isspace():
+                pos += 1
+                continue
+            mm2 = re.match(r"X\s*\(([^()]*)\)", tbl[pos:])
+            if not mm2:
+                _err(path, ln, "MJMODEL_REFERENCES_REQUIRED entry near '%s'" % tbl[pos:pos + 40])
+            a = [x.strip() for x in mm2.group(1).split(",")]
+            pos += mm2.end()
+            if len(a) != 2 or a[0] not in arr_index or a[1] not in sidx:
+                _err(path, ln, "required-reference entry %s" % (a,))
+            A = xm["arrays"][arr_index[a[0]]]
+            if A["type"] != "int" or A["nr_idx"] != sidx[a[1]] or A["nc"][0] not in ("c", "k"):
+                _err(path, ln, "required reference %s: validator reads %s ints of an array (%s x %s) of %s" % (a[0], a[1], A["nr"], A["nc_txt"], A["type"]))
+            reqs.append({"arr": arr_index[a[0]], "name": a[0], "cnt": sidx[a[1]]})
+        xmac2 = re.search(r"#define X\(adrarray, nadrs\)(.*?)\n\s*MJMODEL_REFERENCES_REQUIRED;", body, flags=re.S)
+        if not xmac2:
+            _err(path, ln, "X macro of MJMODEL_REFERENCES_REQUIRED")
+        xb2 = re.sub(r"[\s\\]+", "", xmac2.group(1))
+        if xb2 != 'for(inti=0;i<m->nadrs;i++){if(m->adrarray[i]<0){return"Invalidmodel:"#adrarray"isnegative.";}}':
+            _err(path, ln, "the per-entry check of MJMODEL_REFERENCES_REQUIRED changed: %s" % xb2[:200])
+        if body.find("MJMODEL_REFERENCES_REQUIRED;") < body.find("MJMODEL_REFERENCES;"):
+            _err(path, ln, "MJMODEL_REFERENCES_REQUIRED must be checked after MJMODEL_REFERENCES")
+        if not reqs:
+            _err(path, ln, "empty MJMODEL_REFERENCES_REQUIRED")
+    elif "MJMODEL_REFERENCES_REQUIRED" in body:
+        _err(path, ln, "MJMODEL_REFERENCES_REQUIRED present but not understood")
+    r["reqs"] = reqs
     r["path"] = path
     return r
 
@@ -663,8 +697,11 @@ def coq_text(xm, eio, info):
             j, rf["name"], sizes[rf["cnt"]], rf["mul"], rf["tgt_name"], rf["num_name"]))
     L.append(";\n".join(rows))
     L.append("].\n")
+    L.append("Definition real_reqs : list reqdesc := [")
+    L.append(";\n".join("  mkReq %d %d (* %d %s[%s] *)" % (q["arr"], q["cnt"], j, q["name"], sizes[q["cnt"]]) for j, q in enumerate(eio["reqs"])))
+    L.append("].\n")
     L.append("Definition real_layout : layout :=")
-    L.append("  mkLayout %s %d %d %s %d %d %d %s %d %s real_arrays real_refs %s %s." % (
+    L.append("  mkLayout %s %d %d %s %d %d %d %s %d %s real_arrays real_refs real_reqs %s %s." % (
         "[" + "; ".join(map(str, hdr)) + "]", len(sizes), eio["nmake"],
         "[" + "; ".join("%d%%nat" % e for e in eio["exempt"]) + "]", eio["nonzero"], eio["map_idx"], eio["map_mult"],
         "[" + "; ".join("%d%%nat" % t for t in eio["map_terms"]) + "]", eio["align"],
@@ -682,7 +719,7 @@ def translate(repo, run_info):
     out = run_info(info_source(xm, eio))
     info = check_info(xm, eio, out)
     txt, hdr = coq_text(xm, eio, info)
-    meta = {"sizes": xm["sizes"], "arrays": xm["arrays"], "refs": eio["refs"], "hdr": hdr, "nmake": eio["nmake"],
+    meta = {"sizes": xm["sizes"], "arrays": xm["arrays"], "refs": eio["refs"], "reqs": eio["reqs"], "hdr": hdr, "nmake": eio["nmake"],
             "structs": [(f, t, sz) for f, t, sz in info["F"]], "map_idx": eio["map_idx"], "map_mult": eio["map_mult"],
             "map_terms": eio["map_terms"], "exempt": eio["exempt"], "nonzero": eio["nonzero"], "align": eio["align"],
             "mapchk": eio["mapchk"], "ref64": eio["ref64"],
